@@ -98,18 +98,18 @@ def cases(tier, seed):
                         c.update(_strategy_kw(strategy))
                         yield c
     # ---- random merges --------------------------------------------------------------------------
-    k = 2600 if tier == "quick" else 60000
+    k = 1700 if tier == "quick" else 40000
     for _ in range(k):
         yield _rand_merge(rng, rand_partition_desc)
     # ---- merge_asof -----------------------------------------------------------------------------
-    k = 700 if tier == "quick" else 16000
+    k = 450 if tier == "quick" else 10000
     for _ in range(k):
         yield _rand_asof(rng)
     # ---- concat ---------------------------------------------------------------------------------
-    k = 900 if tier == "quick" else 20000
+    k = 550 if tier == "quick" else 12000
     for _ in range(k):
         yield _rand_concat0(rng, rand_partition_desc)
-    k = 500 if tier == "quick" else 12000
+    k = 350 if tier == "quick" else 8000
     for _ in range(k):
         yield _rand_concat1(rng)
 
@@ -155,7 +155,7 @@ def _rand_merge(rng, rand_partition_desc):
          "lpart": rand_partition_desc(rng, nl, allow_unknown=True), "rpart": rand_partition_desc(rng, nr, allow_unknown=True),
          "lindex": rng.choice(("range", "range", "sorted", "dups", "unsorted")),
          "rindex": rng.choice(("range", "range", "sorted", "dups", "unsorted"))}
-    if rng.random() < 0.04:
+    if rng.random() < 0.04 and not nakeys:
         c["rpandas"] = True       # right operand is a pandas frame (documented)
     return c
 
@@ -413,26 +413,24 @@ def _plan(coll):
         return []
 
 
-def _part_lengths(ddf):
-    import dask
+def _has_empty_partition(desc, n, ddf):
+    if desc.get("how") in ("slices", "delayed"):
+        cuts = sorted(min(max(0, c), n) for c in desc.get("cuts", []))
+        b = [0] + cuts + [n]
+        return any(y == x for x, y in zip(b[:-1], b[1:]))
+    return n < getattr(ddf, "npartitions", 1)
 
-    try:
-        return [len(p) for p in dask.compute(*[ddf.partitions[i] for i in range(ddf.npartitions)], scheduler="sync")]
-    except Exception:  # noqa: BLE001
-        return []
 
-
-def _judge(ctx, facet, pred, result, expected, check_index, ordered, rtol=1e-9, detail=None, check_order_only_if_equal=True):
+def _judge(ctx, facet, pred, result, expected, check_index, ordered, rtol=1e-9, detail=None):
     """staged comparison; returns the list of symptoms reported."""
     from vf.gen import frames
 
     detail = dict(detail or {})
-    detail.update(got=_short(result), expected=_short(expected))
     symptoms = []
 
     def report(symptom, msg):
         symptoms.append(symptom)
-        ctx.violation("%s:%s:%s" % (facet, pred(symptom), symptom), msg, **detail)
+        ctx.violation("%s:%s:%s" % (facet, pred(symptom), symptom), msg, got=_short(result), expected=_short(expected), **detail)
 
     # 1 -- kind, columns, length, rows as a multiset (dtypes apart)
     m = frames.compare(result, expected, ordered=False, rtol=rtol, check_index=check_index, check_dtype=False)
@@ -443,6 +441,8 @@ def _judge(ctx, facet, pred, result, expected, check_index, ordered, rtol=1e-9, 
             sym = "values"
             if check_index and frames.compare(result, expected, ordered=False, rtol=rtol, check_index=False, check_dtype=False) is None:
                 sym = "index"
+                if frames.compare(result, expected, ordered=False, rtol=rtol, check_index=True, check_dtype=False, check_names=False) is None:
+                    sym = "index-name"
         report(sym, m[1])
         if pred(sym) != "other" or sym in ("kind", "columns"):
             return symptoms
@@ -453,7 +453,14 @@ def _judge(ctx, facet, pred, result, expected, check_index, ordered, rtol=1e-9, 
         report("dtype", md[1])
     if m is not None:
         return symptoms
-    if ordered:
+    if ordered == "sorted-by-index":
+        # index joins with known divisions: the promise is "sorted by the index" (pandas orders the rows of a
+        # many-to-many index join by an algorithm of its own, which no partition-wise execution can reproduce)
+        if expected.index.is_monotonic_increasing:
+            ctx.count("cmp_ordered")
+            if not result.index.is_monotonic_increasing:
+                report("order", "pandas result is sorted by the index, the dask result is not: %s" % list(result.index[:30]))
+    elif ordered:
         ctx.count("cmp_ordered")
         m = frames.compare(result, expected, ordered=True, rtol=rtol, check_index=check_index, check_dtype=False)
         if m is not None:
@@ -491,8 +498,8 @@ def _merge_features(case, L, R, lddf, rddf, plan, kw):
     f["npart-arg"] = case["npart"]
     f["broadcast-arg"] = case["broadcast"]
     f["shuffle-arg"] = case["shuffle"]
-    f["empty-partition-l"] = 0 in _part_lengths(lddf)
-    f["empty-partition-r"] = (0 in _part_lengths(rddf)) if hasattr(rddf, "npartitions") else False
+    f["empty-partition-l"] = _has_empty_partition(case["lpart"], len(L), lddf)
+    f["empty-partition-r"] = _has_empty_partition(case["rpart"], len(R), rddf) if hasattr(rddf, "npartitions") else False
     f["right-is-pandas"] = isinstance(rddf, pd.DataFrame)
     return f
 
@@ -523,11 +530,11 @@ def _merge_pred(case, f):
     def pred(symptom):
         nl, nr, npart = f.get("nl", 0), f.get("nr", 0), case["npart"]
         bside = "left" if nl < nr else "right"
+        flipped = False
         if f.get("broadcast-join") and npart is not None:
             # Merge._lower repartitions the non-broadcast side to ``npartitions``; BroadcastJoin derives the side again
             bside2 = ("left" if nl < npart else "right") if bside == "left" else ("left" if npart < nr else "right")
-            if bside2 != bside:
-                return "broadcast-join&npartitions-arg-flips-broadcast-side"
+            flipped, bside = bside2 != bside, bside2
         other_on_index = form in ("ii", "oi") or (form == "ic" and bside == "right") or (form == "ci" and bside == "left")
         if how == "leftsemi" and form == "ic":
             return "leftsemi&left_index"
@@ -535,10 +542,14 @@ def _merge_pred(case, f):
             return "right-operand-is-pandas&left_index&right_on"
         if f.get("broadcast-join") and how != "inner" and other_on_index:
             return "broadcast-join&how!=inner&non-broadcast-side-joined-on-index"
+        if flipped:
+            return "broadcast-join&npartitions-arg-flips-broadcast-side"
         if how == "leftsemi" and f.get("broadcast-join") and bside == "left":
             return "leftsemi&broadcast-join&left-side-broadcast"
         if form in ("ci", "ic") and kd == "dt" and how in ("outer", "right" if form == "ci" else "left"):
             return "column-index&datetime-key&how-keeps-index-side-rows"
+        if form in ("ii", "ci", "ic", "oi") and kd == "cat":
+            return "categorical-index-key"
         return "other"
     return pred
 
@@ -603,7 +614,7 @@ def _run_merge(case, ctx):
         return
     f = _merge_features(case, L, R, lddf, rddf, plan, kw)
     both_index = bool(kw.get("left_index") and kw.get("right_index")) or form == "oi"
-    ordered = both_index and f["known-l"] and f["known-r"] and how != "leftsemi"
+    ordered = "sorted-by-index" if (both_index and f["known-l"] and f["known-r"] and how != "leftsemi") else False
     ctx.count("merge_compared")
     ctx.count("merge_how_" + how)
     if f["broadcast-join"]:
@@ -635,7 +646,7 @@ def _run_merge(case, ctx):
            detail={"features": f, "kw": repr(kw), "extra": extra})
     ctx.sample = {"facet": "merge", "form": form, "how": how, "kd": case["kd"], "rows": [len(L), len(R), len(expected)],
                   "npartitions": [f["nl"], f["nr"]], "plan": [p for p in plan if "Join" in p or "Shuffle" in p or "Merge" in p],
-                  "ordered": ordered}
+                  "ordered": bool(ordered)}
 
 
 # ---------------------------------------------------------------------------
@@ -807,8 +818,10 @@ def _concat_pred(case, f):
             cat = [fd["kind"] == "frame" and "k" in fd["cols"] for fd in fds]
             if any(cat) and any(fd["kind"] == "series" for fd in fds) and not all(fd["kind"] == "series" for fd in fds):
                 return "categorical-column&series-input"
-            if cat[0] and case["join"] == "outer" and any(set(fd["cols"]) - set(fds[0]["cols"]) for fd in fds[1:]):
-                return "first-frame-has-categorical-column&later-input-adds-columns"
+            if cat[0] and any(set(fd["cols"]) != set(fds[0]["cols"]) for fd in fds[1:]):
+                return "first-frame-has-categorical-column&inputs-have-different-columns"
+            if symptom in ("name", "index-name") and 0 in f.get("rows", ()) and len(set(f.get("names" if symptom == "name" else "index-names", ()))) > 1:
+                return "an-input-is-empty&names-differ"
         return "other"
     return pred
 
@@ -849,14 +862,12 @@ def _run_concat0(case, ctx):
     f = {"join": case["join"], "interleave": case["interleave"], "interleaved-plan": interleaved, "stacked": case["stacked"],
          "kinds": [fd["kind"] for fd in case["frames"]], "cols": [fd["cols"] for fd in case["frames"]],
          "known": [bool(d.known_divisions) for d in dobjs], "npartitions": [d.npartitions for d in dobjs],
-         "rows": [len(o) for o in objs], "known-out": known_out, "plan": plan, "fam": case["fam"]}
+         "rows": [len(o) for o in objs], "known-out": known_out, "plan": plan, "fam": case["fam"],
+         "names": [repr(getattr(o, "name", "<frame>")) for o in objs], "index-names": [repr(o.index.name) for o in objs]}
     ctx.count("concat0_compared")
     ctx.count("concat0_interleaved_plan" if interleaved else "concat0_stacked_plan")
     if known_out:
         ctx.count("concat0_known_divisions_out")
-        m = frames.divisions_violation(coll)
-        if m is not None:
-            ctx.violation("concat0:%s:divisions-%s" % (_concat_pred(case, f)("divisions"), m[0]), m[1], features=f)
     if "series" in f["kinds"]:
         ctx.count("concat_series_inputs")
     if len({tuple(c) for c in f["cols"]}) > 1:
@@ -935,10 +946,6 @@ def _run_concat1(case, ctx):
         ctx.count("concat1_unknown_divisions_warning")
     if "series" in f["kinds"]:
         ctx.count("concat_series_inputs")
-    if known_out:
-        m = frames.divisions_violation(coll)
-        if m is not None:
-            ctx.violation("concat1:%s:divisions-%s" % (_concat_pred(case, f)("divisions"), m[0]), m[1], features=f)
     ctx.distinct("concat_programs", ("1", case["join"], case["mode"], f["kinds"], [fd["cols"] for fd in case["frames"]], same))
     ctx.nontrivial = len(expected) >= 2 and max(f["npartitions"]) >= 2
     ctx.sig = case
